@@ -309,9 +309,11 @@ class IntraWordFilter(Filter):
         self.possessive = re.compile(dispat, re.UNICODE)
 
         # Expression for finding case and letter-number transitions
-        lower2upper = u("[%s][%s]") % (lowercase, uppercase)
-        letter2digit = u("[%s%s][%s]") % (lowercase, uppercase, digits)
-        digit2letter = u("[%s][%s%s]") % (digits, lowercase, uppercase)
+        # The second character is matched with a lookahead so that overlapping
+        # transitions (e.g. "a1b") are all found
+        lower2upper = u("[%s](?=[%s])") % (lowercase, uppercase)
+        letter2digit = u("[%s%s](?=[%s])") % (lowercase, uppercase, digits)
+        digit2letter = u("[%s](?=[%s%s])") % (digits, lowercase, uppercase)
         if splitwords and splitnums:
             splitpat = u("(%s|%s|%s)") % (lower2upper, letter2digit,
                                           digit2letter)
